@@ -43,6 +43,14 @@ def run(rep, tier):
                                                             [(1, 3), (2, 3), (3, 3), (4, 4), (5, 3), (3, 5)])],
                   "outside": "longer histories / more segments (see history-independence obligation in thorough tier)"}
     run_e1(rep, specs(tier))
+    from props import ctrl_obl
+    from engine import E2
+    e = E2(rep, tier)
+    sizes = [(6, 3), (8, 3), (5, 4)] if tier == "quick" else [(6, 3), (8, 3), (5, 4), (10, 4), (16, 3), (6, 5)]
+    rep.bounds["(segments,history)_mir"] = [list(x) for x in sizes]
+    ctrl_obl.evaluator_obligations(e, sizes, real=True)
+    ctrl_obl.evaluator_obligations(e, [(2, 2), (3, 2)], real=False)
+    e.finish()
     if tier == "thorough":
         obs = run_e1(rep, state_specs(), hook=True)
         ok = [o for o in obs if o.status == "discharged"]
@@ -51,4 +59,7 @@ def run(rep, tier):
 
 
 def replay(path):
+    if path.endswith(".json"):
+        from props.c02 import ctrl_replay
+        return ctrl_replay(path)
     return replay_cmd(path)
